@@ -17,6 +17,11 @@
 #include <common/vjson.hpp>
 
 #include <fcppt/extract_from_string.hpp>
+#include <fcppt/output_to_string_locale.hpp>
+#include <fcppt/output_to_std_wstring_locale.hpp>
+#include <fcppt/output_to_std_string_locale.hpp>
+#include <fcppt/output_to_fcppt_string_locale.hpp>
+#include <fcppt/extract_from_string_locale.hpp>
 #include <fcppt/from_std_wstring.hpp>
 #include <fcppt/from_std_wstring_locale.hpp>
 #include <fcppt/narrow.hpp>
@@ -409,6 +414,105 @@ void drive_dec(T const v, std::string const &api)
     r.kv("xok", back.has_value());
     r.raw("xv", back.has_value() ? num_json(num_of(back.get_unsafe())) : std::string("{\"s\":0,\"m\":[]}"));
   });
+}
+
+// ------------------------------------------------------------------------------ decimal text, *_locale overloads
+// numpunct facets built in-process (the table is repeated in spec/Codec.tla, Puncts)
+template <typename Ch>
+class punct_facet : public std::numpunct<Ch>
+{
+public:
+  punct_facet(char const _sep, std::string _grouping, char const _point)
+      : sep_(_sep), grouping_(std::move(_grouping)), point_(_point)
+  {
+  }
+
+protected:
+  Ch do_thousands_sep() const override { return static_cast<Ch>(sep_); }
+  std::string do_grouping() const override { return grouping_; }
+  Ch do_decimal_point() const override { return static_cast<Ch>(point_); }
+
+private:
+  char sep_;
+  std::string grouping_;
+  char point_;
+};
+
+std::locale make_punct_locale(char const sep, std::string const &grouping, char const point)
+{
+  std::locale const narrow(std::locale::classic(), new punct_facet<char>(sep, grouping, point));
+  return std::locale(narrow, new punct_facet<wchar_t>(sep, grouping, point));
+}
+
+std::locale const &locale_named(std::string const &name)
+{
+  static std::locale const grouped = make_punct_locale('\'', "\3", '.');
+  static std::locale const decimal_comma = make_punct_locale(',', "", ',');
+  static std::locale const german = make_punct_locale('.', "\3", ',');
+  if (name == "grouped") return grouped;
+  if (name == "decimal_comma") return decimal_comma;
+  if (name == "german") return german;
+  return std::locale::classic();
+}
+
+char const *const loc_names[] = {"classic", "grouped", "decimal_comma", "german"};
+char const *const dec_loc_apis[] = {"std_string_locale", "std_wstring_locale", "string_locale", "fcppt_string_locale", "wstring_locale"};
+
+// the global C++ locale is `glob` while the call runs (restored to the classic one afterwards)
+template <typename T>
+void drive_dec_loc(T const v, std::string const &api, std::string const &loc, std::string const &glob)
+{
+  vj::J pre;
+  pre.kv("f", "dec_loc").kv("T", tname<T>::get()).kv("bits", static_cast<int>(sizeof(T) * 8)).kv("sg", std::is_signed_v<T> ? 1 : 0);
+  pre.kv("api", api).kv("loc", loc).kv("glob", glob).raw("x", num_json(num_of(v)));
+  std::locale const &l = locale_named(loc);
+  emit(pre, [&](vj::J &r) {
+    std::locale::global(locale_named(glob));
+    fcppt::optional::object<T> back;
+    std::string text_json;
+    if (api == "std_wstring_locale" || api == "wstring_locale")
+    {
+      std::wstring const t =
+          api == "std_wstring_locale" ? fcppt::output_to_std_wstring_locale(v, l) : fcppt::output_to_string_locale<std::wstring>(v, l);
+      text_json = vj::cps(t);
+      back = fcppt::extract_from_string_locale<T>(t, l);
+    }
+    else
+    {
+      std::string const t = api == "std_string_locale" ? fcppt::output_to_std_string_locale(v, l)
+                            : api == "string_locale"   ? fcppt::output_to_string_locale<std::string>(v, l)
+                                                       : fcppt::output_to_fcppt_string_locale(v, l);
+      text_json = vj::cps(t);
+      back = fcppt::extract_from_string_locale<T>(t, l);
+    }
+    std::locale::global(std::locale::classic());
+    r.raw("text", text_json);
+    r.kv("xok", back.has_value());
+    r.raw("xv", back.has_value() ? num_json(num_of(back.get_unsafe())) : std::string("{\"s\":0,\"m\":[]}"));
+  });
+}
+
+template <typename T>
+void dec_loc_family(std::vector<ull> const &patterns, std::size_t const every)
+{
+  char const *const globs[] = {"classic", "german", "grouped"};
+  std::size_t k = 0;
+  for (ull p : patterns)
+  {
+    T const v = static_cast<T>(static_cast<pattern_t<T>>(p));
+    for (int l = 0; l < 4; ++l)
+    {
+      // every value: the narrow API with the global locale left classic; the other APIs and other
+      // global locales in rotation
+      drive_dec_loc<T>(v, dec_loc_apis[0], loc_names[l], "classic");
+      if (k % every == 0)
+      {
+        drive_dec_loc<T>(v, dec_loc_apis[1 + (k / every + static_cast<std::size_t>(l)) % 4], loc_names[l], "classic");
+        drive_dec_loc<T>(v, dec_loc_apis[(k / every) % 5], loc_names[l], globs[1 + (k / every + static_cast<std::size_t>(l)) % 2]);
+      }
+    }
+    ++k;
+  }
 }
 
 // text: a decimal text (input generator: std::to_string of a wider value); extracted into T
@@ -804,6 +908,20 @@ void record(std::uint64_t const seed, bool const thorough)
     dec_over_family<long>(texts);
     dec_over_family<unsigned long>(texts);
   }
+  // ---- decimal text with explicitly passed locales (numpunct facets), global locale classic / other
+  {
+    std::vector<ull> small;
+    for (ull i = 0; i < 65536; i += (thorough ? 1 : 13)) small.push_back(i);
+    for (ull i : {999ULL, 1000ULL, 1001ULL, 9999ULL, 10000ULL, 32767ULL, 32768ULL, 64535ULL, 64536ULL, 65535ULL}) small.push_back(i);
+    dec_loc_family<short>(small, 3);
+    dec_loc_family<unsigned short>(small, 3);
+    dec_loc_family<int>(lattice(32, r, nrand / 8), 2);
+    dec_loc_family<unsigned>(lattice(32, r, nrand / 8), 2);
+    dec_loc_family<long>(lattice(64, r, nrand / 8), 2);
+    dec_loc_family<unsigned long>(lattice(64, r, nrand / 8), 2);
+    dec_loc_family<long long>(lattice(64, r, nrand / 16), 2);
+    dec_loc_family<unsigned long long>(lattice(64, r, nrand / 16), 2);
+  }
   // ---- enums
   {
     std::vector<std::string> names = {"solo", "red", "green", "blue", "a", "ab", "abc", "B", "b_", "zero0", "x-y", "Ab",
@@ -1054,6 +1172,10 @@ bool replay_one(vj::V const &e)
     return with_arith(e.str("T"), [&]<typename T>(T *) { drive_io_read<T>(ints_of(e.nums("bs")), e.str("e") == "big"); });
   if (f == "dec")
     return with_int(e.str("T"), [&]<typename T>(T *) { drive_dec<T>(int_of_num<T>(num_of_json(e.at("x"))), e.str("api")); });
+  if (f == "dec_loc")
+    return with_int(e.str("T"), [&]<typename T>(T *) {
+      drive_dec_loc<T>(int_of_num<T>(num_of_json(e.at("x"))), e.str("api"), e.str("loc"), e.str("glob"));
+    });
   if (f == "dec_over")
     return with_int(e.str("T"), [&]<typename T>(T *) {
       std::string t;
